@@ -15,7 +15,8 @@ def gen_cases(tier, seed):
         scripts = []
         for _ in range(nt):
             k = rnd.randint(0, 3)
-            scripts.append("p" * k + ("r" if rnd.random() < 0.8 else ""))
+            # w: the task wakes itself during that poll (async-task then re-sends it from the loop thread)
+            scripts.append("".join("w" if rnd.random() < 0.3 else "p" for _ in range(k)) + ("r" if rnd.random() < 0.8 else ""))
             if not scripts[-1]:
                 scripts[-1] = "r"
         lops = ["s%d" % j for j in range(nt)] + ["d"]
@@ -24,8 +25,8 @@ def gen_cases(tier, seed):
         nw = rnd.randint(1, 3)
         wprogs = ["".join(str(rnd.randrange(nt)) for _ in range(rnd.randint(1, 4))) for _ in range(nw)]
         # prefix: the loop thread schedules every task and completes its first dispatch (every task polled once, wakers exist)
-        prefix = [0] * (3 * nt + 3 + nt + 1 + 2)
-        pool = [0] * (6 * extra_d + 8) + [i + 1 for i, p in enumerate(wprogs) for _ in range(4 * len(p))]
+        prefix = [0] * (3 * nt + 3 + nt + 1 + 2 + 4 * sum(1 for sc in scripts if sc.startswith("w")))
+        pool = [0] * (6 * extra_d + 8 + 4 * sum(sc.count("w") for sc in scripts)) + [i + 1 for i, p in enumerate(wprogs) for _ in range(4 * len(p))]
         rnd.shuffle(pool)
         cases.append("%s | %s | %s | %s" % (",".join(scripts), " ".join(lops), ";".join(wprogs), "".join(map(str, prefix + pool))))
     # the batch limit: more than 1024 ready tasks in one dispatch (sequential)
@@ -90,7 +91,7 @@ def main(tier, seed):
     st = vlib.standard_front(chk)
     chk.assumptions = ["granularity: one mpsc enqueue, notified swap/store, eventfd write/read, poll or try_recv (+ the poll of the dequeued task) per step",
                        "async-task (wake on idle schedules once, wake on scheduled/completed is a no-op, tasks run only via Runnable::run) and slab are assumed",
-                       "futures are scripts of poll outcomes; wakes while a task is being polled cannot occur under the baton scheduler (polls contain no yield point)",
+                       "futures are scripts of poll outcomes (pending / ready / wakes itself during the poll, then pending); CROSS-THREAD wakes that land while a task is being polled cannot occur under the baton scheduler (polls contain no yield point) - the self-wake reaches the same async-task path (woken_while_running)",
                        "PARTIAL: Executor::drop racing a concurrent wake (finding F13) and StreamSource are not in the proved model; StreamSource is run sequentially against its expected output"]
     if not (st.get("harness_ok") and st.get("model_ok")):
         chk.violation("build", "correspondence broken: build failed\n%s\n%s" % (st.get("harness_log", "")[-2000:], st.get("model_log", "")[-2000:]), nofail=True)
@@ -124,7 +125,7 @@ def main(tier, seed):
     chk.cov.update({
         "evaluations": len(cases) + len(sc), "distinct_nontrivial": len(set(impl)),
         "traces_validated_against_impl": len(cases) - len(diffs),
-        "rule": "1-4 tasks with scripts p*r?, all scheduled and polled once (prefix), then 1-3 waker threads with 1-4 wakes each interleaved with 1-4+4 "
+        "rule": "1-4 tasks with scripts (p|w)*r? (w = wakes itself inside poll), all scheduled and polled once (prefix), then 1-3 waker threads with 1-4 wakes each interleaved with 1-4+4 "
                 "dispatches under random schedules; + %d StreamSource scripts run sequentially; a case is one schedule on real threads" % len(sc),
         "samples": [{"case": c, "impl": i, "model": m} for c, i, m in list(zip(cases, impl, model))[:2]],
         "model_impl_disagreements": len(diffs),
